@@ -1,0 +1,111 @@
+// Licensed to Apache Software Foundation (ASF) under one or more contributor
+// license agreements. See the NOTICE file distributed with
+// this work for additional information regarding copyright
+// ownership. Apache Software Foundation (ASF) licenses this file to you under
+// the Apache License, Version 2.0 (the "License"); you may
+// not use this file except in compliance with the License.
+// You may obtain a copy of the License at
+//
+//     http://www.apache.org/licenses/LICENSE-2.0
+//
+// Unless required by applicable law or agreed to in writing,
+// software distributed under the License is distributed on an
+// "AS IS" BASIS, WITHOUT WARRANTIES OR CONDITIONS OF ANY
+// KIND, either express or implied.  See the License for the
+// specific language governing permissions and limitations
+// under the License.
+
+//go:build verif
+
+// Contracts for the ordered secondary index: merging sorted shard responses (comment-only; read by /verif/govc).
+
+package sidx
+
+//@ section C09
+//
+// A cursor is "in the heap" (ghost) while the heap still owns it. container/heap is external: its operations are
+// assumed to keep exactly the in-heap cursors in the list, non-nil and whole objects, with a top that is minimal (for
+// ascending merges; maximal for descending ones) among all in-heap cursors under the heap's own Less.
+//@ type QueryResponseCursor
+//@   ghost inHeap bool
+//@ spec func curValid(c *QueryResponseCursor) bool = c.response != nil && !fresh(c.response) && !fresh(c.response.Keys) && 0 <= c.idx && c.idx < len(c.response.Keys)
+//@ spec func before(asc bool, x int64, y int64) bool = ite(asc, x <= y, x >= y)
+//@ spec func listOK(q *QueryResponseHeap) bool = forall k :: 0 <= k && k < len(q.cursors) ==> q.cursors[k] != nil && pidx(q.cursors[k]) == 0 && q.cursors[k].inHeap
+//@ spec func allValid() bool = forall c *QueryResponseCursor :: c.inHeap ==> curValid(c)
+// every shard response is stored in ascending key order; a descending merge walks each response from its end
+//@ spec func allSorted() bool = forall c *QueryResponseCursor, a, b :: c.inHeap && 0 <= a && a < b && b < len(c.response.Keys) ==> c.response.Keys[a] <= c.response.Keys[b]
+//@ spec func topFirst(q *QueryResponseHeap) bool = len(q.cursors) > 0 ==> (forall c *QueryResponseCursor :: c.inHeap ==> before(q.asc, q.cursors[0].response.Keys[q.cursors[0].idx], c.response.Keys[c.idx]))
+//
+//@ func heap.Pop
+//@   assumed container/heap with this heap's Less/Swap/Pop: removes the top cursor, keeps every other in-heap cursor, restores the heap order
+//@   requires len(unbox(h, QueryResponseHeap).cursors) > 0
+//@   requires comparable: forall c *QueryResponseCursor :: c.inHeap && c != unbox(h, QueryResponseHeap).cursors[0] ==> curValid(c)
+//@   modifies unbox(h, QueryResponseHeap).cursors
+//@   modifies allof(QueryResponseCursor.inHeap)
+//@   ensures  len(unbox(h, QueryResponseHeap).cursors) == old(len(unbox(h, QueryResponseHeap).cursors)) - 1
+//@   ensures  sameobj(unbox(h, QueryResponseHeap).cursors, old(unbox(h, QueryResponseHeap).cursors)) && off(unbox(h, QueryResponseHeap).cursors) == off(old(unbox(h, QueryResponseHeap).cursors))
+//@   ensures  !old(unbox(h, QueryResponseHeap).cursors[0]).inHeap
+//@   ensures  forall c *QueryResponseCursor :: c != old(unbox(h, QueryResponseHeap).cursors[0]) ==> c.inHeap == old(c.inHeap)
+//@   ensures  listOK(unbox(h, QueryResponseHeap))
+//@   ensures  topFirst(unbox(h, QueryResponseHeap))
+//@ func heap.Fix
+//@   assumed container/heap: re-establishes the heap order after the element at index i changed; same cursors
+//@   requires 0 <= i && i < len(unbox(h, QueryResponseHeap).cursors)
+//@   requires comparable: allValid()
+//@   modifies unbox(h, QueryResponseHeap).cursors
+//@   ensures  samehdr(unbox(h, QueryResponseHeap).cursors, old(unbox(h, QueryResponseHeap).cursors))
+//@   ensures  listOK(unbox(h, QueryResponseHeap))
+//@   ensures  topFirst(unbox(h, QueryResponseHeap))
+//
+//@ func QueryResponseHeap.Len
+//@   mode int
+//@   ensures result == len(qrh.cursors)
+//@ func QueryResponse.Len
+//@   mode int
+//@   requires qr != nil
+//@   ensures result == len(qr.Keys)
+//
+// mergeWithHeap: the merged keys come out in the requested order, at most `limit` of them when a limit is given, and
+// the four parallel columns stay aligned.
+//@ spec func keysOrdered(r *QueryResponse, asc bool) bool = forall i, j :: 0 <= i && i < j && j < len(r.Keys) ==> before(asc, r.Keys[i], r.Keys[j])
+//@ func QueryResponseHeap.mergeWithHeap
+//@   mode int
+//@   timeout 30
+//@   requires qrh != nil && pidx(qrh) == 0 && limit >= 0
+//@   requires listOK(qrh) && allValid() && topFirst(qrh)
+//@   requires sortedInputs: allSorted()
+//@   modifies qrh.cursors
+//@   modifies allof(QueryResponseCursor.inHeap)
+//@   modifies allof(QueryResponseCursor.idx)
+//@   ensures  in-key-order: keysOrdered(result, qrh.asc)
+//@   ensures  limited: limit > 0 ==> len(result.Keys) <= limit
+//@   ensures  aligned: len(result.Data) == len(result.Keys) && len(result.SIDs) == len(result.Keys) && len(result.PartIDs) == len(result.Keys)
+//@   loop 0 split-tail
+//@   loop 0 invariant result != nil && fresh(result) && qrh.asc == old(qrh.asc) && (step == 1 || step == -1) && (qrh.asc <==> step == 1)
+//@   loop 0 invariant cols: len(result.Data) == len(result.Keys) && len(result.SIDs) == len(result.Keys) && len(result.PartIDs) == len(result.Keys) && (limit > 0 ==> len(result.Keys) <= limit)
+//@   loop 0 invariant freshcols: fresh(result.Keys) && fresh(result.Data) && fresh(result.SIDs) && fresh(result.PartIDs)
+//@   loop 0 invariant hdr: sameobj(qrh.cursors, old(qrh.cursors)) && off(qrh.cursors) == off(old(qrh.cursors)) && len(qrh.cursors) <= old(len(qrh.cursors))
+//@   loop 0 invariant list: listOK(qrh)
+//@   loop 0 invariant valid: allValid()
+//@   loop 0 invariant top: topFirst(qrh)
+//@   loop 0 invariant inputs: allSorted()
+//@   loop 0 invariant ordered: keysOrdered(result, qrh.asc)
+//@   loop 0 invariant frontier: len(result.Keys) > 0 ==> (forall c *QueryResponseCursor :: c.inHeap ==> before(qrh.asc, result.Keys[len(result.Keys)-1], c.response.Keys[c.idx]))
+//
+// the heap's own methods, as container/heap uses them
+//@ func QueryResponseHeap.Less
+//@   mode int
+//@   requires 0 <= i && i < len(qrh.cursors) && 0 <= j && j < len(qrh.cursors)
+//@   requires qrh.cursors[i] != nil && curValid(qrh.cursors[i]) && qrh.cursors[j] != nil && curValid(qrh.cursors[j])
+//@   ensures  result == ite(qrh.asc, qrh.cursors[i].response.Keys[qrh.cursors[i].idx] < qrh.cursors[j].response.Keys[qrh.cursors[j].idx], qrh.cursors[i].response.Keys[qrh.cursors[i].idx] > qrh.cursors[j].response.Keys[qrh.cursors[j].idx])
+//@ func QueryResponseHeap.Swap
+//@   mode int
+//@   requires qrh != nil && 0 <= i && i < len(qrh.cursors) && 0 <= j && j < len(qrh.cursors)
+//@   modifies qrh.cursors[0:len(qrh.cursors)]
+//@   ensures  qrh.cursors[i] == old(qrh.cursors[j]) && qrh.cursors[j] == old(qrh.cursors[i])
+//@   ensures  forall k :: 0 <= k && k < len(qrh.cursors) && k != i && k != j ==> qrh.cursors[k] == old(qrh.cursors[k])
+//@ func QueryResponseHeap.reset
+//@   mode int
+//@   requires qrh != nil
+//@   modifies qrh.cursors
+//@   ensures  len(qrh.cursors) == 0
